@@ -94,6 +94,11 @@ func GenStore(seed uint64, prop string, idx int) *StoreSpec {
 		}
 		return epochUnixNs + int64(r.Intn(3_600_000))*1e6 + int64(r.Intn(1_000_000))
 	}
+	type updRef struct {
+		plan int
+		path string
+	}
+	var updated []updRef
 	for k := 0; k < nops; k++ {
 		x := r.Intn(100)
 		var w []int // cumulative weights: create update read exists search list delete reopen
@@ -125,6 +130,21 @@ func GenStore(seed uint64, prop string, idx int) *StoreSpec {
 			l := NewLayout(i, &spec.Plans[i].Shape)
 			o := Pick(r, l.Objs)
 			op := StoreOp{Op: "update", Plan: i, Path: o.Path, Status: Pick(r, []int{StNotStarted, StRunning, StCompleted, StFailed, StStopped}), StartNs: nsTime(), EndNs: nsTime()}
+			if len(updated) > 0 && r.Bool(0.35) {
+				// write the same object again, often taking a field back to its zero value
+				// (what a continuous check's re-run or a recovery reset does)
+				u := Pick(r, updated)
+				i, l = u.plan, NewLayout(u.plan, &spec.Plans[u.plan].Shape)
+				o = l.ByPath[u.path]
+				op.Plan, op.Path = i, o.Path
+				if r.Bool(0.4) {
+					op.EndNs = 0
+				}
+				if r.Bool(0.25) {
+					op.StartNs = 0
+				}
+			}
+			updated = append(updated, updRef{i, o.Path})
 			if o.Kind == KPlan {
 				op.Reason = Pick(r, []int{frUnknown, frPre, frBlock, frPost, frCont, frDeferred, 500, frExceed})
 			}
